@@ -119,7 +119,7 @@ PROPS = {
         assumptions=[],
         jobs=[
             dict(harness="hist", prop="hist_c10align", kind="enum"),
-            dict(harness="hist", prop="hist_c10", cases=(8000, 200000), size=(40, 120)),
+            dict(harness="hist", prop="hist_c10", cases=(8000, 100000), size=(40, 120)),
             dict(harness="tables", prop="c10_struct", cases=(48000, 1600000), size=(30, 60)),
             dict(harness="codec", prop="c06_cell", kind="enum"),   # encoder level: every write call's return value (fill level x operation x boundary argument)
         ],
@@ -202,7 +202,7 @@ PROPS = {
         assumptions=[],
         extra_harnesses=["fuzz_rewrite", "mutread"],
         jobs=[
-            dict(harness="reread", prop="c08_rewrite", cases=(12000, 400000), size=(30, 80)),
+            dict(harness="reread", prop="c08_rewrite", cases=(12000, 100000), size=(30, 80)),
             dict(kind="py", func="fuzz", tiers=("thorough",), targets=["fuzz_rewrite"], runs=(0, 0), max_total_time=(0, 600), procs=(0, 6), max_len=4096, seed_corpus=False),
         ],
     ),
